@@ -269,7 +269,8 @@ def merge(results):
         for k, v in d["maxes"].items():
             m["maxes"][k] = max(m["maxes"].get(k, v), v)
         if len(m["samples"]) < 12:
-            m["samples"] += d["samples"][len(m["samples"]) % 3::3][:3]
+            k = len(m["samples"]) % 3
+            m["samples"] += (d["samples"][k::3] or d["samples"])[:3]
         m["violations"] += d["violations"]
         m["notes"] += d["notes"]
         m["wall_max"] = max(m["wall_max"], d.get("wall_s", 0))
@@ -381,6 +382,9 @@ class Verdict:
             cov.update(extra_cov)
         if exhaustive is not None:
             cov["exhaustive"] = exhaustive
+        if not cov["samples"]:
+            self.inconclusive.append("no sample cases were recorded")
+            cov["samples"] = ["none recorded"]
         if self.inconclusive:
             cov["inconclusive"] = self.inconclusive[:20]
         if self.known_hits:
